@@ -14,6 +14,7 @@ from xdsl.dialects.x86.registers import (
     RBX,
     RSP,
     GeneralRegisterType,
+    Reg64Type,
 )
 from xdsl.passes import ModulePass
 from xdsl.rewriter import InsertPoint
@@ -30,13 +31,18 @@ class X86PrologueEpilogueInsertion(ModulePass):
     name = "x86-prologue-epilogue-insertion"
 
     def _process_function(self, func: x86_func.FuncOp) -> None:
+        # The 64, 32, 16 and 8-bit names of a general-purpose register share one physical
+        # register: writing e.g. `ebx` clobbers `rbx`, which has to be preserved.
         used_callee_preserved_registers = OrderedSet(
-            res.type
+            reg
             for op in func.walk()
             if not isinstance(op, x86.GetRegisterOp)
             for res in op.results
             if isinstance(res.type, GeneralRegisterType)
-            if res.type in X86_CALLEE_SAVED_REGISTERS
+            if isinstance(res.type.index, builtin.IntAttr)
+            if res.type.index.data >= 0
+            if (reg := Reg64Type.from_index(res.type.index.data))
+            in X86_CALLEE_SAVED_REGISTERS
         )
 
         if not used_callee_preserved_registers:
